@@ -99,15 +99,24 @@ def layoutCheck (items : List Item) (L : Layout) (e : Entry) : Bool :=
     e.dirs.all fun d =>
       walk (frameAgree (selItems items d false) (selItems items d true) e d) fr 0
 
-/-- the whole obligation of one Spec entry -/
+/-- index in `layouts[]` of the entry `l1sched_mframe_layout(config, tn)` returns -/
+def layoutIdx (config : Pchan) (tn : Nat) : Option Nat :=
+  layouts.findIdx? fun l => l.config.val == config.val && l.slotmask.testBit tn
+
+/-- `layoutCheck` for every layout whose index is in `idxs` -/
+def checkIdx (items : List Item) (e : Entry) (idxs : List (Option Nat)) : List Layout → Nat → Bool
+  | [], _ => true
+  | L :: rest, i =>
+    (!(idxs.contains (some i)) || layoutCheck items L e) && checkIdx items e idxs rest (i + 1)
+
+/-- the whole obligation of one Spec entry: the task has a table, every valid timeslot
+    has a layout, and every layout so returned (each checked once) agrees with the table -/
 def entryCheck (e : Entry) : Bool :=
   match tableOf e.task with
   | none => false
   | some items =>
-    e.tns.all fun tn =>
-      match layoutFor e.config tn with
-      | none => false
-      | some L => layoutCheck items L e
+    !((e.tns.map (layoutIdx e.config)).contains none) &&
+      checkIdx items e (e.tns.map (layoutIdx e.config)) layouts 0
 
 /-! ## lifting -/
 
@@ -155,7 +164,7 @@ theorem lookup_ok (L : Layout) (fr : List Frame) (hf : L.frames = some fr) (hp :
 
 theorem airFrame_eq : ∀ fn, airFrame fn = fn + SCHEDULE_AHEAD := by
   intro fn
-  have : frameOffset + SCHEDULE_LATENCY = SCHEDULE_AHEAD := by decide
+  have : frameOffset + dspLatency = SCHEDULE_AHEAD := by decide
   simp only [airFrame, Nat.add_assoc, this]
 
 theorem fires_eq_firesAir (it : Item) (fn : Nat) (h : fn + SCHEDULE_AHEAD < 4294967296) :
@@ -200,6 +209,33 @@ theorem layout_lift (items : List Item) (L : Layout) (e : Entry)
       Option.some.injEq]
     exact hrow
 
+theorem not_mem_of_contains_false {α} [BEq α] [LawfulBEq α] (l : List α) (a : α)
+    (h : l.contains a = false) : a ∉ l := by
+  intro hm
+  have := List.contains_iff_mem.2 hm
+  rw [h] at this
+  cases this
+
+theorem layoutFor_eq (config : Pchan) (tn : Nat) :
+    layoutFor config tn = (layoutIdx config tn).bind (layouts[·]?) :=
+  List.find?_eq_bind_findIdx?_getElem?
+
+theorem checkIdx_get (items : List Item) (e : Entry) (idxs : List (Option Nat)) (l : List Layout)
+    (k : Nat) (h : checkIdx items e idxs l k = true) (i : Nat) (hi : i < l.length)
+    (hm : some (k + i) ∈ idxs) : layoutCheck items l[i] e = true := by
+  induction l generalizing k i with
+  | nil => exact absurd hi (by simp)
+  | cons a t ih =>
+    simp only [checkIdx, Bool.and_eq_true, Bool.or_eq_true, Bool.not_eq_true'] at h
+    cases i with
+    | zero =>
+      rcases h.1 with h1 | h1
+      · exact absurd (by simpa using hm) (not_mem_of_contains_false _ _ h1)
+      · simpa using h1
+    | succ j =>
+      have := ih (k + 1) h.2 j (by simpa using hi) (by simpa [Nat.add_assoc, Nat.add_comm 1 j] using hm)
+      simpa using this
+
 theorem entry_lift (e : Entry) (h : entryCheck e = true) : EntryAgrees e := by
   unfold entryCheck at h
   split at h
@@ -207,11 +243,21 @@ theorem entry_lift (e : Entry) (h : entryCheck e = true) : EntryAgrees e := by
   · rename_i items hitems
     refine ⟨items, hitems, ?_⟩
     intro tn htn
-    have h1 := (List.all_eq_true.1 h) tn htn
-    split at h1
-    · exact absurd h1 (by decide)
-    · rename_i L hL
-      exact ⟨L, hL, fun d hd fn hfn => layout_lift items L e h1 d hd fn hfn⟩
+    simp only [Bool.and_eq_true, Bool.not_eq_true'] at h
+    obtain ⟨hnone, hchk⟩ := h
+    have hmem : layoutIdx e.config tn ∈ e.tns.map (layoutIdx e.config) := List.mem_map_of_mem htn
+    cases hidx : layoutIdx e.config tn with
+    | none => rw [hidx] at hmem; exact absurd hmem (not_mem_of_contains_false _ _ hnone)
+    | some i =>
+      rw [hidx] at hmem
+      have hi : i < layouts.length := by
+        have := (List.findIdx?_eq_some_iff_getElem.1 hidx)
+        exact this.1
+      have hL : layoutFor e.config tn = some layouts[i] := by
+        rw [layoutFor_eq, hidx]
+        simp [hi]
+      have hc := checkIdx_get items e _ layouts 0 hchk i hi (by simpa using hmem)
+      exact ⟨layouts[i], hL, fun d hd fn hfn => layout_lift items layouts[i] e hc d hd fn hfn⟩
 
 /-! ## reading `agreeAt` -/
 
@@ -488,5 +534,63 @@ def dlOnlyCheck (L : Layout) : Bool :=
   match L.frames with
   | none => false
   | some fr => fr.all fun f => !(dlOnlyChans.contains f.ulChan)
+
+/-! ## statement-level predicates of the property theorems -/
+
+/-- the firmware starts a block of (the SACCH of, `s = true`) the task's channel at
+    tick `fn`; the block's first burst is on the air in frame `airFrame fn` -/
+def FwStartsBlock (items : List Item) (d : Dir) (s : Bool) (fn : Nat) : Prop :=
+  ∃ it ∈ items, d ∈ setDirs it.set ∧ isSacch it = s ∧ fires it fn = true
+
+/-- trxcon's layout marks frame number `f` as the first burst (bid 0) of a block of `c` -/
+def LayoutFirstBurst (L : Layout) (d : Dir) (c : Lchan) (f : Nat) : Prop :=
+  ∃ fr, lookup L f = .ok fr ∧ (chanOf d fr).1 = c ∧ (chanOf d fr).2 = 0
+
+/-- trxcon's layout gives frame number `f` to channel `c` -/
+def LayoutOwns (L : Layout) (d : Dir) (c : Lchan) (f : Nat) : Prop :=
+  ∃ fr, lookup L f = .ok fr ∧ (chanOf d fr).1 = c
+
+theorem fwMarks_iff (items : List Item) (d : Dir) (s : Bool) (fn : Nat) :
+    fwMarks items d s fn = true ↔ FwStartsBlock items d s fn := by
+  simp only [fwMarks, selItems, List.any_eq_true, List.mem_filter, Bool.and_eq_true,
+    decide_eq_true_eq, beq_iff_eq, FwStartsBlock]
+  constructor
+  · rintro ⟨it, ⟨hm, hd, hs⟩, hf⟩; exact ⟨it, hm, hd, hs, hf⟩
+  · rintro ⟨it, hm, hd, hs, hf⟩; exact ⟨it, ⟨hm, hd, hs⟩, hf⟩
+
+theorem mem_real_layouts {L : Layout} (hL : L ∈ layouts) (hn : L.config ≠ .NONE) :
+    L ∈ layouts.filter fun L => L.config != .NONE := by
+  simp only [List.mem_filter, bne_iff_ne, ne_eq]
+  exact ⟨hL, hn⟩
+
+theorem layoutFor_mem {c : Pchan} {tn : Nat} {L : Layout} (h : layoutFor c tn = some L) :
+    L ∈ layouts := (layoutForVal_some _ _ _ h).1
+
+/-- from "for every tick" to "the residues modulo the period are the same set" -/
+theorem residues_of_pointwise (L : Layout) (hA : SCHEDULE_AHEAD ≤ L.period)
+    (hb : L.period + L.period < 4294967296) (F G : Nat → Prop) (hG : ∀ f g, f % L.period = g % L.period → (G f ↔ G g))
+    (hpt : ∀ fn, fn + SCHEDULE_AHEAD < 4294967296 → (F fn ↔ G (airFrame fn))) :
+    ∀ r, r < L.period →
+      ((∃ fn, fn + SCHEDULE_AHEAD < 4294967296 ∧ F fn ∧ airFrame fn % L.period = r) ↔ G r) := by
+  intro r hr
+  constructor
+  · rintro ⟨fn, hfn, hF, hres⟩
+    have := (hpt fn hfn).1 hF
+    exact (hG (airFrame fn) r (by rw [hres, Nat.mod_eq_of_lt hr])).1 this
+  · intro hGr
+    refine ⟨r + L.period - SCHEDULE_AHEAD, by omega, ?_, ?_⟩
+    · apply (hpt _ (by omega)).2
+      apply (hG _ r _).2 hGr
+      rw [airFrame_eq, Nat.sub_add_cancel (by omega), Nat.add_mod_right]
+    · rw [airFrame_eq, Nat.sub_add_cancel (by omega), Nat.add_mod_right, Nat.mod_eq_of_lt hr]
+
+theorem firstBurst_congr (L : Layout) (d : Dir) (c : Lchan) (f g : Nat)
+    (h : f % L.period = g % L.period) : LayoutFirstBurst L d c f ↔ LayoutFirstBurst L d c g := by
+  simp only [LayoutFirstBurst, lookup_congr L f g h]
+
+theorem owns_congr (L : Layout) (d : Dir) (c : Lchan) (f g : Nat)
+    (h : f % L.period = g % L.period) : LayoutOwns L d c f ↔ LayoutOwns L d c g := by
+  simp only [LayoutOwns, lookup_congr L f g h]
+
 
 end OsmoVerif.Mframe
